@@ -20,6 +20,17 @@ struct Elem
     ~Elem() { g_ev.push_back({'D', reinterpret_cast<std::uintptr_t>(this)}); }
 };
 
+// same, but with a move constructor that cannot throw (only default construction can): the rollback must not depend on that
+struct ElemNM
+{
+    long pad;
+    ElemNM() { if (g_seq++ == g_throw_at) throw boom{}; g_ev.push_back({'C', reinterpret_cast<std::uintptr_t>(this)}); }
+    ElemNM(const ElemNM&) { if (g_seq++ == g_throw_at) throw boom{}; g_ev.push_back({'C', reinterpret_cast<std::uintptr_t>(this)}); }
+    ElemNM(ElemNM&&) noexcept { g_ev.push_back({'C', reinterpret_cast<std::uintptr_t>(this)}); }
+    ~ElemNM() { g_ev.push_back({'D', reinterpret_cast<std::uintptr_t>(this)}); }
+};
+static_assert(sizeof(ElemNM) == sizeof(Elem), "the event log divides addresses by sizeof(Elem)");
+
 // leaf that records alloc/free in the same event list and checks parameters
 struct rec_alloc
 {
@@ -52,6 +63,8 @@ static void run_helper(const std::string& helper, Alloc& alloc, std::size_t n, b
         else if (helper == "array") { auto p = allocate_unique<Elem[]>(alloc, n); }
         else if (helper == "anyarray") { auto p = allocate_unique<Elem[]>(any_allocator{}, alloc, n); }
         else if (helper == "shared") { auto p = allocate_shared<Elem>(alloc); }
+        else if (helper == "arraynm") { auto p = allocate_unique<ElemNM[]>(alloc, n); }
+        else if (helper == "anyarraynm") { auto p = allocate_unique<ElemNM[]>(any_allocator{}, alloc, n); }
     }
     catch (boom&) { threw = true; }
 }
